@@ -105,6 +105,18 @@ func init() {
 		// the repository's own tests, run with the verif tag: observer invariants on every connection
 		rc, rev := repoTestTraces(run, map[string]bool{"C08": true})
 		fmt.Printf("C08: %d connections (%d hook events) of the repository's own test suite validated by TLC against the observer invariants\n", rc, rev)
+		// a connection that is closed while its session is still being created: whatever
+		// session the backend then returns gets its one Logout
+		nns := 0
+		for _, lm := range []bool{false, true} {
+			for _, how := range []string{"server-close", "reject"} {
+				nns++
+				if msg := closeDuringNewSession(lm, how); msg != "" {
+					run.Report(evid.Div{Prop: "C08", Key: "newsession-window:" + how, Msg: fmt.Sprintf("connection closed (%s, lmtp=%v) while NewSession was running: %s", how, lm, msg), Replay: map[string]interface{}{"engine": "newsession-window", "how": how, "lmtp": lm}})
+				}
+			}
+		}
+		fmt.Printf("C08: %d scenarios with the connection closed during NewSession\n", nns)
 		// the delivery goroutine held before it calls the backend: no callback begins after Logout
 		mcv := modelCheck("Verdict", "MC_Verdict.cfg", 4)
 		nl := lateStartFamily(run)
@@ -134,4 +146,72 @@ func firstFunc(dump string) string {
 		}
 	}
 	return "?"
+}
+
+// closeDuringNewSession: the connection ends (Server.Close from outside, or the
+// backend calling Conn.Reject itself) while Backend.NewSession has not returned;
+// the session it returns afterwards must be logged out exactly once.
+func closeDuringNewSession(lmtp bool, how string) string {
+	srv := drv.Start(drv.Cfg{LMTP: lmtp, MaxLine: 2000})
+	defer srv.Stop()
+	cn, err := srv.Dial()
+	if err != nil {
+		return "dial: " + err.Error()
+	}
+	defer cn.Close()
+	cn.Output()
+	be := srv.BE
+	be.Lock()
+	if how == "reject" {
+		be.NewSessionReject = true
+	} else {
+		be.NewSessionGate = "ns"
+	}
+	be.Unlock()
+	if how != "reject" {
+		be.Hold("ns")
+	}
+	hello := "EHLO w.test\r\n"
+	if lmtp {
+		hello = "LHLO w.test\r\n"
+	}
+	cn.Send([]byte(hello))
+	if how != "reject" {
+		for dl := time.Now().Add(3 * time.Second); be.Parked("ns") == 0 && time.Now().Before(dl); {
+			time.Sleep(200 * time.Microsecond)
+		}
+		if be.Parked("ns") == 0 {
+			return "NewSession was never called"
+		}
+		done := make(chan struct{})
+		go func() { srv.S.Close(); close(done) }()
+		select {
+		case <-done:
+		case <-time.After(3 * time.Second):
+			be.Release("ns")
+			return "Server.Close did not return while NewSession was running"
+		}
+		be.Release("ns")
+	}
+	// the handler ends; count the callbacks on the session
+	for dl := time.Now().Add(3 * time.Second); !cn.Ended() && time.Now().Before(dl); {
+		time.Sleep(time.Millisecond)
+	}
+	time.Sleep(5 * time.Millisecond)
+	created, logouts := 0, 0
+	for _, c := range be.Calls() {
+		if c.Name == "NewSession" && c.Sess != 0 {
+			created++
+		}
+		if c.Name == "Logout" {
+			logouts++
+		}
+	}
+	if !cn.Ended() {
+		return "the connection's handler did not end"
+	}
+	if created != 1 || logouts != 1 {
+		return fmt.Sprintf("%d session(s) returned by the backend, %d Logout call(s)", created, logouts)
+	}
+	return ""
 }
